@@ -191,8 +191,14 @@ def raw_solve(p, method, x0):
         else:
             cons.append({"type": "eq", "fun": lambda x, a=a_row, r=rhs: float(a @ x - r), "jac": lambda x, a=a_row: a})
     bnds = [(lb if lb is not None else -np.inf, ub if ub is not None else np.inf) for lb, ub in p["bounds"]]
-    kw = dict(fun=f, x0=x0, method=method, jac=g, bounds=bnds, constraints=cons if cons else ())
-    if method == "trust-constr":
+    kw = dict(fun=f, x0=x0, method=method)
+    if method not in ("Nelder-Mead", "Powell", "COBYLA"):
+        kw["jac"] = g
+    if method in ("L-BFGS-B", "TNC", "SLSQP", "Powell", "trust-constr", "Nelder-Mead"):
+        kw["bounds"] = bnds
+    if cons:
+        kw["constraints"] = cons
+    if method in ("trust-constr", "Newton-CG", "dogleg", "trust-ncg", "trust-exact"):
         kw["hess"] = h
     with warnings.catch_warnings():
         warnings.simplefilter("ignore")
@@ -242,14 +248,29 @@ def check_problem(rng, p, rep, lines, metas, methods):
     fstar = f(p["xstar"])
     x0_expected = initial_point(p["bounds"])
     has_cons = bool(p["cons"])
+    has_eq = any(sn == "==" for _, sn, _ in p["cons"])
+    # every `method=` string: the four default ones always, plus a rotating pair of the others that fit the problem
+    extra = ["BFGS", "CG", "Newton-CG", "TNC", "Nelder-Mead", "Powell"] if not has_cons else ([] if has_eq else ["COBYLA"])
+    methods = list(methods) + (rng.sample(extra, min(2, len(extra))) if len(methods) > 1 else [])
     for method in methods:
         if method == "L-BFGS-B" and has_cons:
             continue
+        # the start: the documented default, or a user-supplied x0 (a random point, the optimum itself, a bound corner)
+        x0_kind = rng.choice(["default", "default", "random", "optimum", "corner"])
+        if x0_kind == "default":
+            x0_user = None
+        elif x0_kind == "random":
+            x0_user = p["xstar"] + np.array([rng.randint(-8, 8) / 8 for _ in range(p["n"])])
+        elif x0_kind == "optimum":
+            x0_user = np.array(p["xstar"], dtype=float)
+        else:
+            x0_user = np.array([lb if lb is not None else (ub if ub is not None else 0.0) for lb, ub in p["bounds"]], dtype=float)
+        rep.histogram["x0:" + x0_kind] = rep.histogram.get("x0:" + x0_kind, 0) + 1
         with MinimizeSpy() as spy:
             with warnings.catch_warnings():
                 warnings.simplefilter("ignore")
                 try:
-                    s = P.solve(method=method)
+                    s = P.solve(method=method) if x0_user is None else P.solve(method=method, x0=x0_user.copy())
                 except Exception as ex:  # noqa: BLE001
                     rep.oracle_failures.append({"what": f"solve(method={method}) raised {type(ex).__name__}: {ex}"[:300],
                                                 "problem": dump(p), "method": method})
@@ -272,9 +293,13 @@ def check_problem(rng, p, rep, lines, metas, methods):
         metas.append(("gate", " ".join(str(b).lower() for b in (kw.get("jac") is not None, kw.get("hess") is not None,
                                                                  kw.get("bounds") is not None,
                                                                  bool(kw.get("constraints")))), p, method))
-        lines.append("x0 (" + " ".join("(" + ("none" if lb is None else rat(lb)) + " " + ("none" if ub is None else rat(ub)) + ")"
-                                       for lb, ub in p["bounds"]) + ")")
-        metas.append(("x0", kw["x0"], p, method))
+        if x0_user is None:
+            lines.append("x0 (" + " ".join("(" + ("none" if lb is None else rat(lb)) + " " + ("none" if ub is None else rat(ub)) + ")"
+                                           for lb, ub in p["bounds"]) + ")")
+            metas.append(("x0", kw["x0"], p, method))
+        elif not np.array_equal(np.asarray(kw["x0"], dtype=float), x0_user):
+            rep.oracle_failures.append({"what": "the user's x0 is not the start handed to SciPy", "problem": dump(p),
+                                        "method": method, "x0": x0_user.tolist(), "got": np.asarray(kw["x0"]).tolist()})
         # ---- captured callables vs hand-written closures at random points
         sgn = -1.0 if p["is_max"] else 1.0   # optyx maximises −f, i.e. hands SciPy −(−f) = f
         for _ in range(3):
@@ -302,9 +327,12 @@ def check_problem(rng, p, rep, lines, metas, methods):
                 rep.oracle_failures.append({"what": "bounds handed to SciPy differ from the declared bounds",
                                             "problem": dump(p), "method": method})
         # ---- the differential
-        raw = raw_solve(p, used, x0_expected)
+        raw = raw_solve(p, used, x0_expected if x0_user is None else x0_user.copy())
         raw_gap = f(raw.x) - fstar
-        raw_ok = bool(raw.success) and feasible(p, raw.x) and raw_gap <= 1e-4 * (1 + abs(fstar))
+        # "raw converged" must mean: to a point optyx's own acceptance test (violation ≤ 1e-6·(1+…), C06) would also
+        # accept — derivative-free methods stop at points that violate a constraint by 1e-6 … 1e-5, which optyx
+        # (rightly) reports as INFEASIBLE
+        raw_ok = bool(raw.success) and feasible(p, raw.x, tol=5e-7) and raw_gap <= 1e-4 * (1 + abs(fstar))
         rep.histogram["raw_converged" if raw_ok else "raw_not_converged"] = \
             rep.histogram.get("raw_converged" if raw_ok else "raw_not_converged", 0) + 1
         if raw_ok:
@@ -346,7 +374,7 @@ def check_problem(rng, p, rep, lines, metas, methods):
             rep.evaluations += 1
             used = spy.calls[0]["method"] if spy.calls else method
             raw2 = raw_solve(p2, used, x0_2)
-            raw2_ok = bool(raw2.success) and feasible(p2, raw2.x)
+            raw2_ok = bool(raw2.success) and feasible(p2, raw2.x, tol=5e-7)
             rep.histogram["resolve_raw_ok" if raw2_ok else "resolve_raw_not_ok"] = \
                 rep.histogram.get("resolve_raw_ok" if raw2_ok else "resolve_raw_not_ok", 0) + 1
             if raw2_ok:
